@@ -123,3 +123,32 @@ def readFieldsGo : Nat → Bytes → List Field → Except Err (List Field)
 def readFields (bs : Bytes) : Except Err (List Field) := readFieldsGo bs.length bs []
 
 end Osmium.Wire
+
+namespace Osmium.Wire
+
+/-! ### writer side (protozero::pbf_writer) -/
+
+def WireType.code : WireType → Nat
+  | .varint => 0 | .fixed64 => 1 | .lengthDelimited => 2 | .fixed32 => 5
+
+/-- `pbf_writer::add_*`: key varint, then the value -/
+def encodeField (f : Field) : Bytes :=
+  encodeVarint (f.tag * 8 + f.wt.code) ++
+    match f.wt with
+    | .varint => encodeVarint f.val
+    | .lengthDelimited => encodeVarint f.payload.length ++ f.payload
+    | .fixed64 => f.payload
+    | .fixed32 => f.payload
+
+def encodeFields (fs : List Field) : Bytes := fs.flatMap encodeField
+
+/-- what a writer can produce and a reader reads back unchanged -/
+def Field.WF (f : Field) : Prop :=
+  0 < f.tag ∧ f.tag < 2 ^ 29 ∧ ¬ (19000 ≤ f.tag ∧ f.tag ≤ 19999) ∧
+  match f.wt with
+  | .varint => f.val < 2 ^ 64 ∧ f.payload = []
+  | .lengthDelimited => f.val = 0 ∧ f.payload.length < 2 ^ 32
+  | .fixed64 => f.val = 0 ∧ f.payload.length = 8
+  | .fixed32 => f.val = 0 ∧ f.payload.length = 4
+
+end Osmium.Wire
